@@ -456,7 +456,10 @@ class ModuleHandle(object):
                     continue
                 for n in imp_node.names:
                     m  = n.asname or n.name
-                    if n.name != "*" and not ModuleHandle(from_mod + m).exists:
+                    # A name imported from a submodule is re-exported under
+                    # its alias, unless the imported thing (``n.name``, not
+                    # the alias) is itself a submodule.
+                    if n.name != "*" and not ModuleHandle(from_mod + n.name).exists:
                         members.append(m)
 
         # Filter by non-private.
